@@ -305,7 +305,7 @@ class Task:
     def finish(self):
         if not self.wrote_header:
             self.write(b"")
-        if self.chunked_response:
+        if self.chunked_response and getattr(self.request, "command", None) != "HEAD":
             # not self.write, it will chunk it!
             self.channel.write_soon(b"0\r\n\r\n")
 
